@@ -51,6 +51,34 @@ pub struct Plan {
     pub check_foreign: bool,
     pub stop_on_finding: bool,
     pub trace: bool,
+    /// evaluate the text as a slice of a longer buffer (a tail chosen by the text's hash follows it
+    /// in memory): a lexer that looks past the end of its input sees something else than in a fresh
+    /// process
+    pub tail: Option<u64>,
+}
+
+/// what may follow a program text in memory when `Plan::tail` is set
+const TAILS: &[&str] = &["/ een", "= 1", "&& ja", "|| ja", "=", "/", "&", "|", ">", "<", "\n1", ";", "\"", "é", " "];
+
+/// `nederlang::eval(src)`, optionally with `src` being the front part of a longer buffer
+pub fn eval_text(src: &str, tail: Option<u64>) -> Result<Object, Error> {
+    let salt = match tail {
+        None => return nederlang::eval(src),
+        Some(s) => s,
+    };
+    // in turn: the text's own last character once more, `= 1`, and one of the general tails
+    let last: String = src.chars().last().map(|c| c.to_string()).unwrap_or_default();
+    let mut f = crate::rng::Fold::new();
+    f.str(src);
+    let t: &str = match salt % 3 {
+        0 if !last.is_empty() => last.as_str(),
+        1 => "= 1",
+        _ => TAILS[((f.0 ^ salt) % TAILS.len() as u64) as usize],
+    };
+    let mut buf = String::with_capacity(src.len() + t.len());
+    buf.push_str(src);
+    buf.push_str(t);
+    nederlang::eval(&buf[..src.len()])
 }
 
 impl Plan {
@@ -67,6 +95,7 @@ impl Plan {
             check_foreign: false,
             stop_on_finding: true,
             trace: false,
+            tail: None,
         }
     }
 }
@@ -302,7 +331,7 @@ pub fn run_eval(src: &str, plan: &Plan, eval_id: u64, reset_all: bool) -> RunRes
     begin_run(plan, eval_id, 0, None);
     sim::marker("EVAL+");
     alloc::set_mode(plan.alloc_mode);
-    let r = catch_unwind(AssertUnwindSafe(|| nederlang::eval(src)));
+    let r = catch_unwind(AssertUnwindSafe(|| eval_text(src, plan.tail)));
     alloc::set_mode(alloc::PLAIN);
     sim::marker("EVAL-");
     finish_run(r, eval_id, reset_all, true)
